@@ -11,7 +11,7 @@ CLAIMED = {
         'text': 'Static, exhaustive over the compiled program (all paths of all exported &mut DelaunayTriangulation '
                 'operations, dev and release cfg): the spatial duplicate index is updated or dropped on every path '
                 'that adds a vertex, is cleared after the Tds is re-keyed, the duplicate query dominates every '
-                'insertion attempt, candidates are re-resolved before the distance test, the coordinates filed in the index '
+                'insertion attempt, candidates are re-resolved before the distance test (a float comparison, not a bit-pattern or hash key), the coordinates filed in the index '
                 'are read back from vertex storage, and slot-map insertion '
                 'happens only behind the UUID vacancy check. This is the cache-coherence and gating half of the '
                 'property; the tolerance arithmetic is not decided.',
@@ -103,7 +103,7 @@ CLAIMED['C08'] = {
             'the InvalidTopology variant gate); every Ok of the public repair entry points lies behind the success edge of '
             'the post-condition verifier (greatest fixed point); the Delaunay verifiers drop no checker result; the flip '
             'drivers cannot write the vertex maps and the heuristic rebuild re-inserts every stored vertex and fails on a '
-            'skipped one; the work-list seeding shared by repair and verifier covers every simplex class per cell; no exported '
+            'skipped one, its first attempt unperturbed; the work-list seeding shared by repair and verifier covers every simplex class per cell; no exported '
             'operation returns success after a flip driver succeeded without the cell orientation having been re-validated. '
             'Decides budget / admissibility / post-condition gating, not convergence or uniqueness.',
     'note': 'Trusted: rustc MIR; the four flip-predicate post-condition checkers and validate_cell_delaunay are leaves '
@@ -131,7 +131,8 @@ CLAIMED['C01'] = {
             'Result<DelaunayTriangulation..>, closures and the retry / fallback wrappers included), and the PL-manifold '
             'completion check is passed on the true edge of requires_vertex_links_at_completion; certifiers are verifiers that '
             'cannot answer Ok without a check having run; no constructor returns Ok after a flip repair without the cell '
-            'orientation having been re-validated. The debug and the '
+            'orientation having been re-validated; sibling constructors (plain / statistics) reach the same verifiers; the '
+            'first construction attempt uses the caller\'s vertices unperturbed. The debug and the '
             'release fact bases are analysed separately because RetryPolicy and validation paths differ — the suite '
             'never runs the release paths. Decides "Ok is certified", not that the certifier is numerically right.',
     'note': 'Trusted: rustc MIR; the L4 leaf table; Pseudomanifold has no Level-3 completion gate by design (noted in '
@@ -145,7 +146,9 @@ CLAIMED['C02'] = {
             '(bootstrap excepted), link and orientation checkers on the true edge of the guarantee predicates, '
             'orientation normalisation / check and local ridge links after a per-insertion repair, Inserted only behind '
             'maybe_check_after_insertion which validates when the policy fires; the insertion owners are clean on failure (C03 '
-            'rollback dataflow), re-created vertices keep UUID and data. Path-sensitive for literal bool flags. '
+            'rollback dataflow), re-created vertices keep UUID and data; the plain and the statistics-reporting insertion entry '
+            'points reach the same validators; no insertion function returns success after the cavity fill / hull extension '
+            'without the orientation normalisation and check. Path-sensitive for literal bool flags. '
             'Decides that no committing path skips the net; not that the validators suffice.',
     'note': 'Trusted: rustc MIR; edges taken when number_of_cells() == 0 and is_empty() on the checked collection are '
             'cut as legitimate bypasses; Pseudomanifold + ValidationPolicy::Never has no gate by design.',
